@@ -44,3 +44,28 @@ Theorem C20_forms_reg_dict_record : forall O P j rec, parse_reg_cred_json O (inr
   verify_reg O P (InDict j) = verify_reg O P (InRec rec).
 Proof. exact reg_forms_dict_rec. Qed.
 Print Assumptions C20_forms_reg_dict_record.
+
+(* policies that denote the same expectations - each looser than the other: the same SET of allowed algorithms and of expected origins in any order and with any
+   repetitions, the same switches - give the same OUTCOME (result or exception) on every credential, valid or not, in every input form *)
+From PW Require Import Proofs.PolicyEquiv.
+Theorem C20_equivalent_policies_reg : forall O P P' c, reg_looser P P' -> reg_looser P' P -> verify_reg O P c = verify_reg O P' c.
+Proof. exact reg_policy_equiv. Qed.
+Print Assumptions C20_equivalent_policies_reg.
+
+Theorem C20_equivalent_policies_auth : forall O P P' c, auth_looser P P' -> auth_looser P' P -> verify_auth O P c = verify_auth O P' c.
+Proof. exact auth_policy_equiv. Qed.
+Print Assumptions C20_equivalent_policies_auth.
+
+Theorem C20_algorithm_list_is_a_set : forall O P c l, (forall a, In a l <-> In a (rp_algs P)) ->
+  verify_reg O P c =
+  verify_reg O {| rp_challenge := rp_challenge P; rp_rp_id := rp_rp_id P; rp_origin := rp_origin P; rp_require_up := rp_require_up P; rp_require_uv := rp_require_uv P;
+                  rp_algs := l; rp_roots := rp_roots P; rp_builtin_apple := rp_builtin_apple P; rp_builtin_android_key := rp_builtin_android_key P;
+                  rp_builtin_safetynet := rp_builtin_safetynet P; rp_now := rp_now P |} c.
+Proof. exact reg_algs_order_and_repeats. Qed.
+Print Assumptions C20_algorithm_list_is_a_set.
+
+Theorem C20_origin_list_is_a_set : forall O P c l l', ap_origin P = OMany l -> (forall s, In s l <-> In s l') ->
+  verify_auth O P c =
+  verify_auth O {| ap_challenge := ap_challenge P; ap_rp_id := ap_rp_id P; ap_origin := OMany l'; ap_pubkey := ap_pubkey P; ap_count := ap_count P; ap_require_uv := ap_require_uv P |} c.
+Proof. exact auth_origins_order_and_repeats. Qed.
+Print Assumptions C20_origin_list_is_a_set.
